@@ -246,7 +246,9 @@ def families(tier):
              ('nest-s', 'u-vcpu-disk', False),
              ('flat-s', 'u+1-none', False),
              ('tree', 'u+1+2-nonadj', False),
-             ('flat', 'u+D-root-notsharing', False)]
+             ('flat', 'u+D-root-notsharing', False),
+             # three classes whose capable trees may be disjoint
+             ('three', 'u-3rc', True), ('flat', 'u-disk', False)]
     extra = [('two', '1+2+3-nonadj', False), ('two', 'u+1+2-nonadj', True),
              ('flat-s', 'u+1+2-nonadj', False),
              ('flat', 'u-vcpu-disk@1.36', True),
